@@ -656,7 +656,8 @@ func ruleL2b(c *Ctx) *RuleResult {
 				if f == nil || f.Name() != "closed" {
 					continue
 				}
-				if b == call.Block() || b.Dominates(call.Block()) {
+				// the test sits at the end of its block: a test in the block of the Wait itself comes after it
+				if b != call.Block() && b.Dominates(call.Block()) {
 					dom = true
 				}
 			}
